@@ -66,7 +66,16 @@ func (x *vc) call(fr *frame, st *state, in ssa.CallInstruction, pos string) Val 
 		// dynamic call through a function value
 		if ft := x.functypeContract(cc.Value.Type()); ft != nil {
 			sig := cc.Value.Type().Underlying().(*types.Signature)
-			return x.applyContract(fr, st, ft, nil, sig, args, nil, pos, "functype:"+cc.Value.Type().String(), resT)
+			fv := x.value(fr, st, cc.Value)
+			if fv.T != "" {
+				x.check(st, "nil", "funcvalue", not(eq(fv.T, "0")), pos, "call of nil function value")
+				x.pendingSelf = &fv
+			}
+			tn := cc.Value.Type().String()
+			if k := strings.LastIndex(tn, "."); k >= 0 {
+				tn = tn[k+1:]
+			}
+			return x.applyContract(fr, st, ft, nil, sig, args, nil, pos, "functype:"+tn, resT)
 		}
 		fv := x.value(fr, st, cc.Value)
 		if fv.T != "" {
@@ -136,7 +145,14 @@ func (x *vc) callStatic(fr *frame, st *state, callee *ssa.Function, binds []Val,
 		if x.externalWrites(callee) {
 			x.havocCall(st, resT, callee.String(), true)
 		}
-		return x.freshResult(st, resT, "ext_"+callee.Name())
+		r := x.freshResult(st, resT, "ext_"+callee.Name())
+		// library functions do not return interface values holding typed nil pointers (e.g. a non-nil error has a non-nil payload)
+		for _, c := range append([]Val{r}, r.Tuple...) {
+			if c.T != "" && c.Typ != nil && x.srt.sortOf(c.Typ) == sIface {
+				x.assume(st.guard, implies(not(eq(app("itag", c.T), "0")), not(eq(app("ival", c.T), "0"))))
+			}
+		}
+		return r
 	}
 	if x.onStack(callee) || len(x.stack) >= x.maxInline {
 		x.note("call to %s: recursion or inline depth exceeded without contract: havoc", key)
@@ -240,6 +256,12 @@ func (x *vc) applyContract(fr *frame, st *state, fc *funcContract, callee *ssa.F
 		copyOuts = append(copyOuts, out)
 	}
 	env := &cenv{x: x, vars: map[string]Val{}, st: st, old: st, pkg: x.pkgOf(fc)}
+	if x.pendingSelf != nil {
+		env.vars["self"] = *x.pendingSelf // the function value being called (function-type contracts)
+		x.pendingSelf = nil
+	} else if callee != nil {
+		env.vars["self"] = x.value(fr, st, callee)
+	}
 	for i, a := range args {
 		if i < len(names) && names[i] != "" && names[i] != "_" {
 			env.vars[names[i]] = a
@@ -260,10 +282,32 @@ func (x *vc) applyContract(fr *frame, st *state, fc *funcContract, callee *ssa.F
 		declared := ""
 		if x.topFC != nil {
 			declared = x.topFC.panics
+			if declared == "" {
+				declared = x.topFC.recovers
+			}
 		}
 		if declared != fc.panics {
 			x.oblige(st, "panic-propagation", what, "false", pos, fmt.Sprintf("callee %s may panic with %s but the caller does not declare it", what, fc.panics), true)
 		}
+	}
+	// termination of (mutual) recursion: the callee's measure at the call is lexicographically below the
+	// measure of the function under verification at its entry
+	if len(fc.fdecr) > 0 && x.topFC != nil && len(x.topFC.fdecr) > 0 && len(x.entryMeasure) == len(fc.fdecr) && fc.decrGroup == x.topFC.decrGroup {
+		var cm []string
+		for _, d := range fc.fdecr {
+			cm = append(cm, x.evalInt(env, d.expr))
+		}
+		goal := "false"
+		for i := len(cm) - 1; i >= 0; i-- {
+			lt := app("<", cm[i], x.entryMeasure[i])
+			if i == len(cm)-1 {
+				goal = lt
+			} else {
+				goal = or(app("<", cm[i], x.entryMeasure[i]), and(eq(cm[i], x.entryMeasure[i]), goal))
+			}
+		}
+		goal = and(app("<=", "0", cm[0]), goal)
+		x.oblige(st, "rec-variant", what, goal, pos, "termination: measure of "+what+" at this call is lexicographically below the caller's entry measure", false)
 	}
 	pre := st.clone()
 	// havoc assigns
@@ -488,12 +532,16 @@ func (x *vc) appendOp(st *state, args []Val, resT types.Type) Val {
 	} else {
 		appended = app("select", app("select", cur, app("sl_arr", args[1].T)), app("+", app("sl_off", args[1].T), app("-", j, app("sl_len", s.T))))
 	}
-	x.assume(st.guard, fmt.Sprintf("(forall ((%s Int)) (! (=> (and (<= 0 %s) (< %s %s)) (= (select %s (+ %s %s)) (ite (< %s (sl_len %s)) (select (select %s (sl_arr %s)) (+ %s %s)) %s))) :pattern ((select %s (+ %s %s)))))",
-		j, j, j, newLen, newContent, off, j, j, s.T, cur, s.T, oldOff, j, appended, newContent, off, j))
-	// when appending in place, locations outside [off+len(s), off+newLen) are unchanged
-	k := fmt.Sprintf("ak!%d", x.fresh)
-	x.assume(and(st.guard, fits), fmt.Sprintf("(forall ((%s Int)) (! (=> (or (< %s (+ %s (sl_len %s))) (>= %s (+ %s %s))) (= (select %s %s) (select (select %s (sl_arr %s)) %s))) :pattern ((select %s %s))))",
-		k, k, oldOff, s.T, k, oldOff, newLen, newContent, k, cur, s.T, k, newContent, k))
+	if x.topFC != nil && x.topFC.preciseAppend {
+		// quantified content facts are only generated where a contract asks for them: they make "sat" answers
+		// (counterexamples) and many unrelated goals much harder for the solvers
+		x.assume(st.guard, fmt.Sprintf("(forall ((%s Int)) (! (=> (and (<= 0 %s) (< %s %s)) (= (select %s (+ %s %s)) (ite (< %s (sl_len %s)) (select (select %s (sl_arr %s)) (+ %s %s)) %s))) :pattern ((select %s (+ %s %s)))))",
+			j, j, j, newLen, newContent, off, j, j, s.T, cur, s.T, oldOff, j, appended, newContent, off, j))
+		// when appending in place, locations outside [off+len(s), off+newLen) are unchanged
+		k := fmt.Sprintf("ak!%d", x.fresh)
+		x.assume(and(st.guard, fits), fmt.Sprintf("(forall ((%s Int)) (! (=> (or (< %s (+ %s (sl_len %s))) (>= %s (+ %s %s))) (= (select %s %s) (select (select %s (sl_arr %s)) %s))) :pattern ((select %s %s))))",
+			k, k, oldOff, s.T, k, oldOff, newLen, newContent, k, cur, s.T, k, newContent, k))
+	}
 	st.heap[name] = x.define(name, srt, app("store", cur, arr, newContent))
 	return r
 }
@@ -530,13 +578,20 @@ func (x *vc) stdlibModel(fr *frame, st *state, callee *ssa.Function, args []Val,
 		if name == "strings.Index" || name == "strings.LastIndex" {
 			x.assume(st.guard, and(app("<=", "(- 1)", r.T), implies(app(">=", r.T, "0"), app("<=", app("+", r.T, app("slen", args[1].T)), app("slen", args[0].T)))))
 		} else {
-			x.assume(st.guard, and(app("<=", "(- 1)", r.T), app("<", r.T, app("max0", app("slen", args[0].T)))))
-			x.needMax0()
+			x.assume(st.guard, and(app("<=", "(- 1)", r.T), app("<", r.T, app("slen", args[0].T))))
 		}
 		x.trusted[name+": -1 <= r and r+len(sep) <= len(s)"] = true
 		return r, true
-	case "strings.HasPrefix", "strings.HasSuffix", "strings.Contains", "strings.ContainsRune", "strings.ContainsAny", "strings.EqualFold":
+	case "strings.HasPrefix", "strings.HasSuffix", "strings.Contains":
+		r := x.freshVal("strpred", types.Typ[types.Bool], st)
+		x.assume(st.guard, implies(r.T, app("<=", app("slen", args[1].T), app("slen", args[0].T))))
+		x.trusted[name+": true implies len(arg1) <= len(arg0)"] = true
+		return r, true
+	case "strings.ContainsRune", "strings.ContainsAny", "strings.EqualFold":
 		return x.freshVal("strpred", types.Typ[types.Bool], st), true
+	case "unicode/utf8.ValidRune":
+		r := args[0].T
+		return Val{T: or(and(app("<=", "0", r), app("<", r, "55296")), and(app("<", "57343", r), app("<=", r, "1114111"))), Typ: resT}, true
 	case "strings.Repeat":
 		x.check(st, "pre", "strings.Repeat", app(">=", args[1].T, "0"), pos, "strings.Repeat: negative Repeat count panics")
 		r := x.freshVal("repeat", resT, st)
